@@ -432,9 +432,10 @@ End CombStmt.
 
 Lemma items_ok m iv items : vok iv -> loop_items_of m iv = Ok items -> Forall vok items.
 Proof.
-  intros Hv. destruct iv; cbn [loop_items_of]; try discriminate.
+  intros Hv. destruct iv as [| | | | |sf t| | | |]; cbn [loop_items_of]; try discriminate.
   - destruct (u_strictish m); intros H; inversion H; subst. constructor.
   - intros H; inversion H; subst. constructor.
+  - intros H; inversion H; subst. clear. induction t; constructor; [exact I|assumption].
   - intros H; inversion H; subst. apply vok_list in Hv. exact Hv.
 Qed.
 
